@@ -288,6 +288,8 @@ func buildErr(e encErrV) error {
 	return scriptErr{msg}
 }
 
+const nilIfaceStringerPanic = "interface conversion: interface is nil, not fmt.Stringer"
+
 func buildStringer(o encOutcome) fmt.Stringer {
 	switch {
 	case o.Nil:
@@ -356,6 +358,11 @@ func buildField(f encField) zapcore.Field {
 	case "refl":
 		return zap.Reflect(key, reflValue(f.J, len(key)))
 	case "stringer":
+		if f.O.Panic != nil && string(unhx(*f.O.Panic)) == nilIfaceStringerPanic {
+			// the nil INTERFACE value as a Stringer field: the type assertion inside zap panics with exactly this text, so for
+			// the model it is one more panicking Stringer
+			return zap.Stringer(key, nil)
+		}
 		return zap.Stringer(key, buildStringer(*f.O))
 	case "error":
 		return zap.NamedError(key, buildErr(*f.E))
